@@ -19,10 +19,11 @@ def rule_assembly(rep, repo):
     if init is None or init.cls != "MolGrid":
         raise AnalysisError("anchor vanished: MolGrid.__init__")
     here = init.loc()
-    sizes = [2, 3]
     n_cfg = 0
-    for kind in ("array", "callable"):
-        for store in (False, True):
+    # two atoms, and a molecule of a single atom (nothing may be short-cut there: the weights are still atomic x aim)
+    for sizes, kind, store in [([2, 3], k_, s_) for k_ in ("array", "callable") for s_ in (False, True)] + \
+            [([3], "callable", False), ([3], "array", True)]:
+        if True:
             grids, allp, allw = [], [], []
             for a, sz in enumerate(sizes):
                 pts = [[sp.Symbol(f"p{a}_{k}{c}") for c in range(3)] for k in range(sz)]
@@ -32,8 +33,9 @@ def rule_assembly(rep, repo):
                                      center=e10.arr(cen)))
                 allp += pts
                 allw += wts
-            atnums = e10.arr([sp.Symbol("Z0"), sp.Symbol("Z1")])
-            aim = [sp.Symbol(f"aim{n}") for n in range(5)]
+            NT = sum(sizes)
+            atnums = e10.arr([sp.Symbol(f"Z{a}") for a in range(len(sizes))])
+            aim = [sp.Symbol(f"aim{n}") for n in range(NT)]
             got = {}
 
             def aim_callable(points, atcoords, atnums_, indices):
@@ -53,40 +55,43 @@ def rule_assembly(rep, repo):
                 raise AnalysisError(f"MolGrid.__init__ is outside the fragment the symbolic array evaluator knows: {e}") from e
             except (IndexError, ValueError, TypeError, KeyError, AttributeError) as e:
                 raise AnalysisError(f"MolGrid.__init__: the evaluation over symbolic arrays failed ({type(e).__name__}: {e})") from e
-            cfg = f"aim weights as {kind}, store={store}"
+            cfg = f"{len(sizes)} atom(s), aim weights as {kind}, store={store}"
+            want_idx = [0]
+            for sz in sizes:
+                want_idx.append(want_idx[-1] + sz)
             n_cfg += 1
             if "points" not in rec:
                 rep.violation("R7.molecular-assembly", "molgrid.MolGrid.__init__", "base-class",
                               f"{cfg}: the base class is not initialised with the assembled points and weights", here)
                 continue
             P, W = rec["points"], rec["weights"]
-            ok = getattr(P, "shape", None) == (5, 3) and getattr(W, "shape", None) == (5,)
-            ok = ok and all(sp.expand(P[n, c] - allp[n][c]) == 0 for n in range(5) for c in range(3))
+            ok = getattr(P, "shape", None) == (NT, 3) and getattr(W, "shape", None) == (NT,)
+            ok = ok and all(sp.expand(P[n, c] - allp[n][c]) == 0 for n in range(NT) for c in range(3))
             if not ok:
                 rep.violation("R7.molecular-assembly", "molgrid.MolGrid.__init__", "points",
                               f"{cfg}: the molecular points are not the atomic points in atom order", here)
                 continue
-            if any(sp.expand(W[n] - allw[n] * aim[n]) != 0 for n in range(5)):
+            if any(sp.expand(W[n] - allw[n] * aim[n]) != 0 for n in range(NT)):
                 rep.violation("R7.molecular-assembly", "molgrid.MolGrid.__init__", "weights",
                               f"{cfg}: the weights handed to the base class are {[str(x) for x in list(W)]}; expected atomic weight x "
                               f"atom-in-molecule weight point by point, once", here)
                 continue
             idx = obj.attrs.get("_indices")
             cen = obj.attrs.get("_atcoords")
-            if idx is None or [int(x) for x in list(idx)] != [0, 2, 5]:
+            if idx is None or [int(x) for x in list(idx)] != want_idx:
                 rep.violation("R7.molecular-assembly", "molgrid.MolGrid.__init__", "indices",
-                              f"{cfg}: the index table is {None if idx is None else [str(x) for x in list(idx)]}, expected [0, 2, 5]", here)
+                              f"{cfg}: the index table is {None if idx is None else [str(x) for x in list(idx)]}, expected {want_idx}", here)
                 continue
-            if cen is None or getattr(cen, "shape", None) != (2, 3) or any(
-                    sp.expand(cen[a, c] - sp.Symbol(f"c{a}{c}")) != 0 for a in range(2) for c in range(3)):
+            if cen is None or getattr(cen, "shape", None) != (len(sizes), 3) or any(
+                    sp.expand(cen[a, c] - sp.Symbol(f"c{a}{c}")) != 0 for a in range(len(sizes)) for c in range(3)):
                 rep.violation("R7.molecular-assembly", "molgrid.MolGrid.__init__", "centres",
                               f"{cfg}: the stored atomic coordinates are not the centres of the atomic grids", here)
                 continue
             if kind == "callable":
                 a_ = got.get("aim_args")
-                if a_ is None or a_[3] != [0, 2, 5] or a_[2] is not atnums or any(
-                        sp.expand(a_[0][n, c] - allp[n][c]) != 0 for n in range(5) for c in range(3)) or any(
-                        sp.expand(a_[1][a, c] - sp.Symbol(f"c{a}{c}")) != 0 for a in range(2) for c in range(3)):
+                if a_ is None or a_[3] != want_idx or a_[2] is not atnums or any(
+                        sp.expand(a_[0][n, c] - allp[n][c]) != 0 for n in range(NT) for c in range(3)) or any(
+                        sp.expand(a_[1][a, c] - sp.Symbol(f"c{a}{c}")) != 0 for a in range(len(sizes)) for c in range(3)):
                     rep.violation("R7.molecular-assembly", "molgrid.MolGrid.__init__", "aim-callable-arguments",
                                   f"{cfg}: the weight callable must receive the assembled points, the centres, the atomic numbers and "
                                   f"the complete index table", here)
@@ -97,4 +102,4 @@ def rule_assembly(rep, repo):
                               f"{cfg}: the atomic grids must be kept exactly when store is true", here)
                 continue
             rep.ok("R7.molecular-assembly", f"MolGrid.__init__[{cfg}]", here, "points, weights, index table, centres")
-    rep.floor("R7 configurations", n_cfg, 4)
+    rep.floor("R7 configurations", n_cfg, 6)
